@@ -42,7 +42,8 @@ impl RestrictView {
 
 impl BufferTransformT for RestrictView {
     fn transform(&mut self, buf: &dyn ParseBufferT) -> TransformResult {
-        if self.start + self.size <= buf.size() {
+        // (compared this way round so that huge values cannot overflow)
+        if self.size <= buf.size() && self.start <= buf.size() - self.size {
             Ok(ParseBuffer::new_view(buf, self.start, self.size))
         } else {
             let err = ErrorKind::BoundsError;
